@@ -55,48 +55,19 @@ pub fn parse_history(s: &str) -> Option<Vec<(Relation, Option<(u64, u64)>)>> {
     if s == "-" {
         return Some(vec![]);
     }
-    s.split(';').map(parse_item).collect()
+    // `new|<n>|<fbsize>|<maxlarge>` tokens of the recorded history are skipped
+    s.split(';')
+        .filter(|t| !t.starts_with("new|") && !t.starts_with("final|"))
+        .map(parse_item)
+        .collect()
 }
 
 fn cap3(v: usize) -> String {
     v.min(3).to_string()
 }
 
-fn show_unpacked(b: &[u8]) -> String {
-    match catch_unwind(AssertUnwindSafe(|| vh::unpack_bytes(b))) {
-        Ok(r) => vh::rel_token(&r),
-        Err(_) => "corrupt".to_string(),
-    }
-}
-
 pub fn show_store(s: &RelationSet) -> String {
-    let join = |v: Vec<String>| if v.is_empty() { "-".to_string() } else { v.join("+") };
-    let part = join(
-        vh::partial_dump(s)
-            .iter()
-            .map(|(k, b)| format!("{k}>{}", show_unpacked(b)))
-            .collect(),
-    );
-    let dbl = join(
-        vh::doubles_dump(s)
-            .iter()
-            .map(|((p, q), b)| format!("{p},{q}>{}", show_unpacked(b)))
-            .collect(),
-    );
-    let rev = join(
-        vh::doubles_rev_dump(s)
-            .iter()
-            .map(|(q, p)| format!("{q},{p}"))
-            .collect(),
-    );
-    format!(
-        "cycles={} partial={part} doubles={dbl} rev={rev} stats={},{},{},{}",
-        s.cycles.len(),
-        s.n_partials,
-        s.n_doubles,
-        s.n_combined12,
-        show_list(&s.n_cycles)
-    )
+    vh::store_dump(s)
 }
 
 /// Runs a history on a real `RelationSet`; same answer grammar as the Lean driver.
